@@ -199,6 +199,60 @@ def run(ck):
             if chunked != one.getvalue():
                 k0 = next((i for i in range(min(len(chunked), len(one.getvalue()))) if chunked[i] != one.getvalue()[i]), -1)
                 ck.fail(f"chunked file {parts} differs from the one-shot file (first difference at byte {k0}; sizes {len(chunked)}/{len(one.getvalue())})", inp)
+    # ---- a chunk whose bytes are an exact multiple of a power-of-two block (64 KiB, 8 KiB, 1 MiB), between two ordinary chunks
+    for ci in range(4 if q else 24):
+        fmt, minor = [(0, 2), (6, 4), (3, 2), (1, 2)][ci % 4]
+        las0 = fio.make_las(ck.rng, minor, fmt, 0)
+        size = las0.header.point_format.size
+        block = [65536, 8192, 65536, 1 << 20][ci % 4]
+        import math
+        k = block // math.gcd(block, size)            # the fewest points whose bytes are a whole number of blocks
+        if k * size > 6 * 2**20:
+            continue
+        n = 100 + k + 50
+        las = fio.make_las(ck.rng, minor, fmt, n)
+        one = io.BytesIO()
+        las.write(one)
+        parts = (100, k, 50)
+        inp = {"kind": "block_multiple_chunk", "minor": minor, "fmt": fmt, "n": n, "parts": list(parts), "record_size": size, "block": block}
+        ck.case(("blockchunk", minor, fmt, n, parts), nontrivial=True)
+        ck.count("chunk_of_exactly_k_blocks")
+        try:
+            chunked = chunked_write(las, parts)
+        except Exception as e:
+            ck.fail(f"chunked write {parts} raised {type(e).__name__}: {e}", inp)
+            continue
+        if chunked != one.getvalue():
+            ck.fail(f"chunked file {parts} (the middle chunk is {k * size} bytes = {k * size // block} x {block}) differs from the one-shot file (sizes {len(chunked)}/{len(one.getvalue())})", inp)
+    # ---- a write_evlrs that is refused (a version without EVLRs) is not the end of the session: the next chunks are written
+    for ci in range(6 if q else 60):
+        minor, fmt = [pr for pr in fio.PAIRS if pr[0] < 4][ci % len([pr for pr in fio.PAIRS if pr[0] < 4])]
+        n = ck.rng.choice([4, 7])
+        las = fio.make_las(ck.rng, minor, fmt, n)
+        one = io.BytesIO()
+        las.write(one)
+        half = n // 2
+        inp = {"kind": "refused_evlrs_between_chunks", "minor": minor, "fmt": fmt, "n": n}
+        ck.case(("refusedev", minor, fmt, n, las.points.array.tobytes()), nontrivial=True)
+        ck.count("refused_write_evlrs_between_chunks")
+        buf = io.BytesIO()
+        try:
+            from laspy.vlrs.vlrlist import VLRList
+            with LasWriter(buf, las.header, closefd=False) as w:
+                w.write_points(las.points[:half])
+                try:
+                    w.write_evlrs(VLRList([laspy.VLR("verif", 1, "not in this version", b"abc")]))
+                    refused = False
+                except LaspyException:
+                    refused = True
+                w.write_points(las.points[half:])
+        except Exception as e:
+            ck.fail(f"LAS 1.{minor}: after a refused write_evlrs the next chunk raised {type(e).__name__}: {e}", inp)
+            continue
+        if not refused:
+            ck.fail(f"LAS 1.{minor}: write_evlrs was not refused", inp)
+        elif buf.getvalue() != one.getvalue():
+            ck.fail(f"LAS 1.{minor}: session with a refused write_evlrs between its chunks: the file differs from the one-shot file", inp)
     # ---- an empty EVLR list written between two chunks changes nothing
     for _ in range(15 if q else 300):
         minor, fmt = ck.rng.choice([pr for pr in fio.PAIRS if pr[0] == 4])
